@@ -138,8 +138,8 @@ Fixpoint eval_expr (fuel : nat) (genv en : env) (e : expr) (out : list N) {struc
           | Some d =>
               match bind_params (fparams d) vs with
               | None => Stuck
-              | Some en' =>
-                  bind (exec_stmt fuel' genv en' (fbody d) out1) (fun r out2 =>
+              | Some en' =>      (* parameters enter scope in order: the last one is the newest binding *)
+                  bind (exec_stmt fuel' genv (rev en') (fbody d) out1) (fun r out2 =>
                     match fst r with
                     | CReturn v => Ok v out2
                     | CNormal => Ok VVoid out2
